@@ -72,8 +72,9 @@ def cases(task, R):
             return [prefix + (o,) for o in levels[len(prefix)]]
         for leaf in ex.run((), succ, lambda p, levels=levels: len(p) == len(levels)):
             frags = {n: leaf[i][1] for i, n in enumerate(names)}
-            yield {'base': G.ser(toks), 'frags': frags, 'frag_keys': [leaf[i][0] for i in range(len(names))],
-                   'all_atom': task['all_atom'], 'legacy': leaf[-1]}
+            for via in task.get('vias', ('string',)):
+                yield {'base': G.ser(toks), 'tokens': toks, 'frags': frags, 'frag_keys': [leaf[i][0] for i in range(len(names))],
+                       'all_atom': task['all_atom'], 'legacy': leaf[-1], 'via': via}
     R.add_explorer(ex)
 
 
@@ -83,7 +84,14 @@ def run_invariant(inp, check, nontrivial_rule=None):
     from cgsmiles import MoleculeResolver
     s = BF.cgsmiles(inp['base'], inp['frags']) if 'string' not in inp else inp['string']
     try:
-        r = MoleculeResolver.from_string(s, last_all_atom=inp['all_atom'], legacy=inp.get('legacy', True))
+        if inp.get('via') == 'graph':
+            # base graph handed over as a graph object (second constructor)
+            from cgsmiles import read_cgsmiles
+            fragstr = '{' + ','.join('#%s=%s' % kv for kv in inp['frags'].items()) + '}'
+            r = MoleculeResolver.from_graph(fragstr, read_cgsmiles(inp['base']), last_all_atom=inp['all_atom'],
+                                            legacy=inp.get('legacy', True))
+        else:
+            r = MoleculeResolver.from_string(s, last_all_atom=inp['all_atom'], legacy=inp.get('legacy', True))
         n = len(r.fragment_dicts)
         for i in range(n):
             coarse, fine = r.resolve()
